@@ -28,8 +28,10 @@ claim("C33",
 claim("C05",
       "Bounded model checking of the real statistics kernels (check_i64_stats, check_i32_stats, check_f64_stats, eval_range*, "
       "flip_op) over ALL integer / double min, max, value, literal and the six comparison operators: a row the interpreter "
-      "keeps is never in a skipped row group. Partial: leaf kernels are complete for integers and doubles; the composition "
-      "through RowGroupMetaData (AND/OR/NOT/BETWEEN/IN, filter elision) is thorough-tier only.",
+      "keeps is never in a skipped row group; and of the whole decision path in a scratch crate that compiles the real "
+      "row_group_pruning.rs against shimmed footer/schema containers (mode S): check_comparison, definite_comparison, NOT / AND / OR / "
+      "BETWEEN / IN composition and prune_row_groups against three-valued row semantics, for one BIGINT column and literal kinds "
+      "BIGINT/INTEGER/DATE/TIMESTAMP/DOUBLE: a kept row is never skipped, the filter is elided only if the predicate is TRUE for every row.",
       "Oracle = row-level comparison semantics of the interpreter written in the harness (exact integers after widening; IEEE-754 "
       "totalOrder for doubles). Assumes the Parquet writer contract (min <= v <= max, statistics non-NaN). Callers (morsel reader, "
       "streaming scan, shard scan) are outside.",
@@ -84,8 +86,9 @@ claim("C06",
       "Bounded model checking of one chunk step of the real compiled-predicate evaluator (CompiledPredicate::eval_chunk) over real 1-row "
       "Arrow arrays: for Int64, Int32 and Date32 columns every comparison operator, literal on either side, yields the interpreter's mask "
       "bit for ALL values; for Float64 the same outside the region where IEEE and totalOrder disagree. That region (a NaN operand, two "
-      "zeros) is a KNOWN FINDING pinned by its own harness: the compiled mask differs from the interpreter's. Partial: multi-instruction "
-      "programs (AND/OR/NOT, arithmetic), null propagation, chunk boundaries and the Compiler itself are outside (not finished within caps).",
+      "zeros) is a KNOWN FINDING pinned by its own harness: the compiled mask differs from the interpreter's. A four-instruction program "
+      "[cmp, cmp, AND|OR, NOT] is decided as well. Partial: f64 arithmetic instructions, null propagation, chunk boundaries / bit packing in "
+      "`evaluate` and the Compiler itself are outside (not finished within caps or Arrow-bound).",
       "Programs are built directly in the shapes the compiler emits. Oracle = arrow-ord cmp semantics (exact integers; totalOrder for floats), "
       "validated natively by e2e_c06_compiled_vs_interpreted_f64.",
       "DESIGN.md §4/C06")
